@@ -681,6 +681,24 @@ theorem mapM_none_of_mem {γ δ : Type} (f : γ → Option δ) (l : List γ) (x 
       | none => rfl
       | some b => simp [ih e]
 
+/-- **C13.minimizer_exact** — the same in exact numbers: with letters `< n` and `n^k ≤ 2^63` (no int64 wrap)
+every returned minimizer is the minimum of the little-endian base-`n` NUMBERS of the k-mers of its window -/
+theorem minimizer_exact (n k w : Nat) (hk : 1 ≤ k) (hkw : k ≤ w) (hr : n ^ k ≤ 9223372036854775808)
+    (rows : List (List Nat)) (hl : ∀ r ∈ rows, ∀ x ∈ r, x < n) :
+    (minimizers n k w rows).map (·.map (·.map some)) =
+      some (spec w (fun win => minInt (windows k (fun km => (hashLE n km : Int)) win)) rows) := by
+  rw [minimizer n k w hk hkw rows]
+  unfold specMinimizers spec
+  refine congrArg some ?_
+  apply List.map_congr_left
+  intro r hrow
+  apply windows_congr w _ _ r
+  intro win hwin _
+  refine congrArg minInt ?_
+  apply windows_congr k _ _ win
+  intro km hkm hlen
+  exact kmerHash_exact n km (fun x hx => hl r hrow x (hwin x (hkm x hx))) (by rw [hlen]; exact hr)
+
 /-- **C13.minimizers_isSome_iff** — completeness: the nested computation fails (numpy raises on an empty
 axis) exactly when the k-mer is longer than the window while at least one window exists -/
 theorem minimizers_isSome_iff (n k w : Nat) (hk : 1 ≤ k) (hw : 1 ≤ w) (rows : List (List Nat)) :
@@ -794,6 +812,52 @@ theorem kmer_inverse (n : Nat) (letters : List Nat) (hl : ∀ x ∈ letters, x <
   · intro i h1 h2
     simp only [List.getElem_map, List.getElem_range]
     exact digit_hashLE n letters hl i (by simpa using h1)
+
+/-- **C13.count_rows_labeled** — `count_kmers(seqs, k, axis=-1)` as the driver's per-row op runs it (`get_kmers` on its
+real path, labels from `get_labels`): the labels are the texts of the codes in order, and row `i` of the counts is the
+histogram of the k-mers of row `i` ALONE -/
+theorem count_rows_labeled (alphabet : List Nat) (k : Nat) (hk : 1 ≤ k)
+    (hr : alphabet.length ^ k ≤ 9223372036854775808) (rows : List (List Nat))
+    (hl : ∀ r ∈ rows, ∀ x ∈ r, x < alphabet.length) :
+    (countKmersRowsLabeled alphabet k rows).1 = getLabels alphabet k ∧
+    (countKmersRowsLabeled alphabet k rows).2 =
+      rows.map (fun r => bincount (alphabet.length ^ k) (windows k (fun win => (hashLE alphabet.length win : Int)) r)) := by
+  simp only [countKmersRowsLabeled, true_and]
+  rw [kmers_dispatch alphabet.length k hk hr rows hl]
+  simp [spec, List.map_map, Function.comp_def]
+
+/-- … read per label: the number in row `i` under the label of a k-mer is how often row `i` spells it -/
+theorem count_rows_labeled_entry (alphabet : List Nat) (k : Nat) (hk : 1 ≤ k)
+    (hr : alphabet.length ^ k ≤ 9223372036854775808) (rows : List (List Nat))
+    (hl : ∀ r ∈ rows, ∀ x ∈ r, x < alphabet.length) (i : Nat) (hi : i < rows.length)
+    (kmer : List Nat) (hkl : kmer.length = k) (hkm : ∀ x ∈ kmer, x < alphabet.length) :
+    ((countKmersRowsLabeled alphabet k rows).2[i]?.bind (·[hashLE alphabet.length kmer]?)) =
+      some ((windows k (fun win => (hashLE alphabet.length win : Int)) rows[i]).count (hashLE alphabet.length kmer : Int)) := by
+  rw [(count_rows_labeled alphabet k hk hr rows hl).2, List.getElem?_map, List.getElem?_eq_getElem hi]
+  simp only [Option.map_some, Option.bind_some]
+  subst hkl
+  exact bincount_getElem? _ _ _ (hashLE_lt _ _ hkm)
+
+/-- **C13.count_labeled_chunks** — additivity for the counts the caller gets (real `get_kmers` path): a collection split
+between two rows is counted as the sum of its parts, and per row as the concatenation of the parts -/
+theorem count_labeled_chunks (alphabet : List Nat) (k : Nat) (hk : 1 ≤ k)
+    (hr : alphabet.length ^ k ≤ 9223372036854775808) (rows1 rows2 : List (List Nat))
+    (hl1 : ∀ r ∈ rows1, ∀ x ∈ r, x < alphabet.length) (hl2 : ∀ r ∈ rows2, ∀ x ∈ r, x < alphabet.length) :
+    (countKmersLabeled alphabet k (rows1 ++ rows2)).2 =
+      addCounts (countKmersLabeled alphabet k rows1).2 (countKmersLabeled alphabet k rows2).2 ∧
+    (countKmersRowsLabeled alphabet k (rows1 ++ rows2)).2 =
+      (countKmersRowsLabeled alphabet k rows1).2 ++ (countKmersRowsLabeled alphabet k rows2).2 := by
+  have hl : ∀ r ∈ rows1 ++ rows2, ∀ x ∈ r, x < alphabet.length := by
+    intro r hr' x hx
+    rcases List.mem_append.mp hr' with h | h
+    · exact hl1 r h x hx
+    · exact hl2 r h x hx
+  simp only [countKmersLabeled, countKmersRowsLabeled]
+  rw [kmers_dispatch _ k hk hr _ hl, kmers_dispatch _ k hk hr _ hl1, kmers_dispatch _ k hk hr _ hl2]
+  constructor
+  · simp only [spec, List.map_append, List.flatten_append]
+    exact bincount_append _ _ _
+  · simp [spec, List.map_append]
 
 /-- the shipped code counted nothing at `k = 1` -/
 theorem countOld_k1_unsound : countKmersOld 4 1 [[0, 1], [1]] = [0, 0, 0, 0] ∧
@@ -914,6 +978,8 @@ example : getKmersPacked 2 [[0, 1, 2, 3], [3], [1, 0]] = [[4, 9, 14], [], [1]] :
 example : (countKmersLabeled [65, 67] 2 [[0, 1, 1], [1]]).2 = [0, 0, 1, 1] := by decide +kernel
 example : minimizers 4 2 3 [[0, 1, 2, 3], [1]] = some [[4, 9], []] := by decide +kernel
 example : minimizersOld 4 1 2 [[0, 1, 2, 3], [1]] = none := by decide +kernel
+example : (countKmersRowsLabeled [65, 67, 71, 84] 1 [[0, 3, 3], [2]]).2 = [[1, 0, 0, 2], [0, 0, 1, 0]] := by decide +kernel
+example : (4 : Nat) ^ 2 ≤ 9223372036854775808 ∧ (∀ r ∈ [[0, 3, 3], [2]], ∀ x ∈ r, x < 4) := by decide
 example : (5 : Nat) ^ 27 ≤ 9223372036854775808 ∧ (21 : Nat) ^ 14 ≤ 9223372036854775808 ∧ (4 : Nat) ^ 31 ≤ 9223372036854775808 := by decide
 example : motifScores (· + ·) (0 : Int) [[1, 2], [10, 20]] [[0, 1, 1], [0]] = [[21, 22], []] := by decide +kernel
 
